@@ -143,6 +143,13 @@ func (t *trzszTransfer) pipelineRecvHashAck(ctx context.Context, cancel context.
 				return
 			}
 
+			// the blocks are acknowledged one by one and in order: a lost or repeated acknowledgement
+			// would leave the two sides with different ideas of where the common prefix ends
+			if expectStep := minInt64(matchStep+kPrefixHashStep, size); hashAck.Step != expectStep {
+				cancel(simpleTrzszError("Hash step check [%d] <> [%d]", hashAck.Step, expectStep))
+				return
+			}
+
 			if !hashAck.Match {
 				matchChan <- matchStep
 				return
